@@ -10,6 +10,9 @@ M = 60_000
 
 
 # ------------------------------------------------------------------------------------------ candles
+TF_NAMES = {1: '1m', 3: '3m', 5: '5m', 15: '15m', 30: '30m', 45: '45m', 60: '1h', 120: '2h'}
+
+
 def gen_candles(rng, n, base=100.0, step=0.125, vol=4, gap_prob=0.15, flat_prob=0.05, start_ts=None, trend=0.0, doji_prob=0.1):
     """valid 1m candles on a dyadic price lattice (multiples of `step`): float +,-,* are exact on it.
     Returns rows [(o, c, h, l, v)]; gaps between close and next open with probability gap_prob."""
@@ -114,6 +117,18 @@ class Tracer:
             return r
         bm.save_daily_portfolio_balance = save
         self._undo.append(lambda: setattr(bm, 'save_daily_portfolio_balance', o_save))
+        # orders created inside _check_for_liquidations are the simulator's force-closing orders
+        o_liq = bm._check_for_liquidations
+        tr.liq_orders = set()
+
+        def check_liq(*a, **kw):
+            before = len(tr.orders)
+            try:
+                return o_liq(*a, **kw)
+            finally:
+                tr.liq_orders.update(range(before, len(tr.orders)))
+        bm._check_for_liquidations = check_liq
+        self._undo.append(lambda: setattr(bm, '_check_for_liquidations', o_liq))
         o_gen = bm._generate_outputs
 
         def gen(*a, **kw):
@@ -198,16 +213,25 @@ def make_strategy(script, observer=None, name='S'):
         def after(self):
             self._obs('after')
 
+        def _gate(self):
+            """entries only while the last candle of the gate timeframe (a trading or data route of this symbol)
+            closed at or above its open; no candle yet = no entry"""
+            g = script.get('gate')
+            if g is None:
+                return True
+            c = self.get_candles(self.exchange, self.symbol, TF_NAMES[g])
+            return len(c) > 0 and bool(c[-1][2] >= c[-1][1])
+
         def should_long(self):
             self._obs('should_long')
             e = script.get('long')
-            return bool(e) and self.index % e['every'] == e.get('phase', 0)
+            return bool(e) and self.index % e['every'] == e.get('phase', 0) and self._gate()
 
         def should_short(self):
             self._obs('should_short')
             e = script.get('short')
             return bool(e) and self.index % e['every'] == e.get('phase', 0) and not (
-                script.get('long') and self.index % script['long']['every'] == script['long'].get('phase', 0))
+                script.get('long') and self.index % script['long']['every'] == script['long'].get('phase', 0)) and self._gate()
 
         def go_long(self):
             e = script['long']
@@ -245,14 +269,25 @@ def make_strategy(script, observer=None, name='S'):
                     self.take_profit = [(q if q else abs(self.position.qty), base + sign * off) for (q, off) in e['tp']]
             self._obs('on_open_position', order)
 
+        def _declare_exit(self, name, qty, price, inplace):
+            """a new declaration: by assignment, or (inplace) by editing the formatted array the strategy already
+            holds — the same declaration as far as the property (and the model) is concerned"""
+            import numpy as np
+            cur = getattr(self, name)
+            if inplace and isinstance(cur, np.ndarray) and cur.shape == (1, 2):
+                cur[0, 0] = qty
+                cur[0, 1] = price
+            else:
+                setattr(self, name, (qty, price))
+
         def update_position(self):
             e = script.get('update')
             if e and self.index % e['every'] == 0:
                 sign = 1 if self.is_long else -1
                 if e.get('sl') is not None:
-                    self.stop_loss = (abs(self.position.qty), self.price - sign * e['sl'])
+                    self._declare_exit('stop_loss', abs(self.position.qty), self.price - sign * e['sl'], e.get('inplace'))
                 if e.get('tp') is not None:
-                    self.take_profit = (abs(self.position.qty), self.price + sign * e['tp'])
+                    self._declare_exit('take_profit', abs(self.position.qty), self.price + sign * e['tp'], e.get('inplace'))
             if script.get('liquidate_at') is not None and self.index == script['liquidate_at']:
                 self.liquidate()
             self._obs('update_position')
@@ -284,7 +319,7 @@ def make_strategy(script, observer=None, name='S'):
     return Scripted
 
 
-def gen_script(rng, spot=False, step=0.125, rich=True, tight=False):
+def gen_script(rng, spot=False, step=0.125, rich=True, tight=False, force=None):
     """a random script biased to valid sessions (affordable sizes, no shorts on spot).
     tight=True: exits a few ticks from the entry so that several orders are reachable inside one minute"""
     def off(lo, hi):
@@ -293,7 +328,16 @@ def gen_script(rng, spot=False, step=0.125, rich=True, tight=False):
         return rng.randint(lo, hi) * step
     s = {}
     kind = rng.choice(['market', 'limit', 'stop', 'ladder', 'straddle'])
-    q = rng.choice([0.25, 0.5, 1.0, 2.0])
+    q = rng.choice([0.25, 0.5, 1.0, 2.0, 0.1, 0.3, 0.7])      # dyadic and decimal sizes (0.1 + 0.2 is inexact in floats)
+    if force:
+        kind = force.get('kind', kind)
+        q = force.get('q', q)
+    q2 = {0.1: 0.2, 0.3: 0.1, 0.7: 0.2}.get(q, q)               # second ladder row
+
+    def dsum(xs):
+        """exact decimal sum (what jesse's sum_floats computes), as a float"""
+        from fractions import Fraction
+        return float(sum(Fraction(repr(float(x))) for x in xs))
 
     def entry_rows(side):
         sg = 1 if side == 'long' else -1
@@ -305,20 +349,22 @@ def gen_script(rng, spot=False, step=0.125, rich=True, tight=False):
             return [(q, sg * off(1, 4))]
         if kind == 'straddle':
             # one row on each side of the price: a LIMIT and a STOP entry resting around the open
-            return [(q, -sg * off(1, 3)), (q, sg * off(1, 3))]
-        return [(q, -sg * off(1, 3)), (q, -sg * off(4, 6))]
+            return [(q, -sg * off(1, 3)), (q2, sg * off(1, 3))]
+        return [(q, -sg * off(1, 3)), (q2, -sg * off(4, 6))]
     every = rng.choice([1, 2, 3, 5, 7])
     s['long'] = {'every': every, 'phase': rng.randrange(every), 'rows': entry_rows('long')}
     if not spot and rng.random() < 0.6:
         ev2 = rng.choice([2, 3, 5])
         s['short'] = {'every': ev2, 'phase': rng.randrange(ev2), 'rows': entry_rows('short')}
-    tot = sum(r[0] for r in s['long']['rows'])
+    tot = dsum(r[0] for r in s['long']['rows'])
     style = rng.choice(['go', 'on_open', 'none']) if not spot else rng.choice(['on_open', 'none'])
+    if force and force.get('style') and not (spot and force['style'] == 'go'):
+        style = force['style']
     if style == 'go':
         for side in ('long', 'short'):
             if side in s:
                 sg = 1 if side == 'long' else -1
-                t = sum(r[0] for r in s[side]['rows'])
+                t = dsum(r[0] for r in s[side]['rows'])
                 s[side]['sl'] = [(t, -sg * off(6, 12))]
                 s[side]['tp'] = [(t / 2, sg * off(6, 9)), (t / 2, sg * off(10, 14))] if rng.random() < 0.5 else [(t, sg * off(6, 12))]
     elif style == 'on_open':
@@ -326,7 +372,7 @@ def gen_script(rng, spot=False, step=0.125, rich=True, tight=False):
     if rng.random() < 0.5:
         s['cancel_after'] = rng.choice([1, 2, 4])
     if rich and rng.random() < 0.4:
-        s['update'] = {'every': rng.choice([1, 2, 3]), 'sl': off(4, 10)}
+        s['update'] = {'every': rng.choice([1, 2, 3]), 'sl': off(4, 10), 'inplace': rng.random() < 0.5}
         if rng.random() < 0.4:
             s['update']['tp'] = off(4, 10)
     if rich and rng.random() < 0.3:
